@@ -607,8 +607,19 @@ pub fn process<I: BufRead, O: Write>(
                         let mut rex = format!("\\b{}\\(", mcro);
                         let params = caps.get(2).unwrap().as_str();
                         if !params.is_empty() {
+                            let mut names = Vec::new();
                             for v in caps.get(2).unwrap().as_str().split(',') {
-                                let vx = v.trim_start();
+                                let vx = v.trim();
+                                // Each parameter becomes a named group of the regex: it must be a name, given once
+                                if vx.is_empty() || names.contains(&vx) {
+                                    return Err(Error::Syntax {
+                                        filename: filename.clone(),
+                                        included_in: included_in.clone(),
+                                        line,
+                                        msg: format!("Invalid parameter list for macro {}", mcro),
+                                    });
+                                }
+                                names.push(vx);
                                 let re = Regex::new(&format!("\\b{}\\b", vx)).unwrap();
                                 value = re.replace_all(&value, format!("$${}", vx)).to_string();
                                 //rex += &format!("(?P<{}>[^,]*?),", vx);
